@@ -2033,6 +2033,132 @@ def run_alias_check(ctx):
                     report('raised', key + 'raised', '{}: {}'.format(type(ex).__name__, str(ex)[:200]), rc)
 
 
+VEC_ROUTES = ['decorator', 'decorator-otypes', 'np.vectorize-lambda']
+VEC_FIRST = ['none', 'int-points', 'int-single', 'float-single', 'float32-array', 'after']
+VEC_BRANCHES = ['vectorize/{}/history-{}'.format(r, f) for r in VEC_ROUTES for f in VEC_FIRST]
+
+
+def run_vectorize_history(ctx):
+    """Non-vectorised (scalar, point-by-point) callables through every vectorisation route the
+    library offers — `odl.util.vectorize` without and with `otypes`, and a `numpy.vectorize`
+    object behind a lambda — with a HISTORY: the SAME wrapped callable is first called on integer
+    points / a single integer point / a single float point / a float32 array (or not at all),
+    then sampled on float64 and float32 (resp. complex) spaces from a mesh grid (space.element,
+    wrapped function) and from a point array; with `after` the integer call comes last.  Every
+    result of every call is compared with the pointwise Python evaluation (exact).  (The output
+    type of each scalar function is uniform within one call, so NumPy's documented per-call type
+    inference of `np.vectorize` without otypes is not what is being tested.)"""
+    import odl
+    from odl.discr.discr_utils import sampling_function
+    variants = [('follow', (1, 2, -3), False),          # integer coefficients: type follows the input
+                ('float', (0.5, 1.5, -0.25), False),
+                ('complex', (0.5 + 1j, 1.5j, -0.25), True)]
+
+    def toks(arr):
+        vals = []
+        for z in np.asarray(arr).ravel(order='C').tolist():
+            p = num_pair(z)
+            vals.append('nonfinite' if p is None else ctok(p))
+        return vals
+
+    for route in VEC_ROUTES:
+        for first in VEC_FIRST:
+            ctx.hit('vectorize/{}/history-{}'.format(route, first))
+            for d in (1, 2):
+                for vname, (c0, c1, c2), cplx in variants:
+                    for sdt in (('complex128',) if cplx else ('float64', 'float32')):
+                        rc = dict(kind='vectorize-history', route=route, first=first, d=d, variant=vname,
+                                  dtype=sdt)
+                        key = 'sampling vectorize route={} history={} d={} callable={} dtype={} :: '.format(
+                            route, first, d, vname, sdt)
+                        ctx.case(('vechist', route, first, d, vname, sdt), None)
+
+                        def scalar(x, c0=c0, c1=c1, c2=c2):
+                            # plain Python on ONE point
+                            if x[0] < 100:
+                                return c0 + c1 * x[0] + c2 * x[0] * x[-1]
+                            return c0
+
+                        def exact(pt, c0=c0, c1=c1, c2=c2):
+                            def fr(c):
+                                c = complex(c)
+                                return (Fr(c.real), Fr(c.imag))
+                            a0, a1, a2 = fr(c0), fr(c1), fr(c2)
+                            m1, m2 = pt[0], pt[0] * pt[-1]
+                            return (a0[0] + a1[0] * m1 + a2[0] * m2, a0[1] + a1[1] * m1 + a2[1] * m2)
+                        try:
+                            if route == 'decorator':
+                                f = odl.util.vectorize(scalar)
+                            elif route == 'decorator-otypes':
+                                f = odl.util.vectorize(otypes=[sdt])(scalar)
+                            else:
+                                vf = np.vectorize(lambda *coords: scalar(np.array(coords)))
+                                f = lambda x, vf=vf: vf(*x)   # noqa
+
+                            def check(label, result, points):
+                                want = [ctok(exact(pt)) for pt in points]
+                                got = toks(result)
+                                if got != want:
+                                    bad = [i for i, (a, b) in enumerate(zip(got, want)) if a != b]
+                                    i = bad[0] if bad else -1
+                                    limited_violation(
+                                        ctx, 'vechist/{}/{}/{}'.format(route, first, label),
+                                        key + '{} values differ from the pointwise evaluation'.format(label),
+                                        'at point {} expected {} got {} (result dtype {})'.format(
+                                            [str(t) for t in points[i]] if i >= 0 else '?',
+                                            want[i] if i >= 0 else len(want), got[i] if i >= 0 else len(got),
+                                            np.asarray(result).dtype), rc, limit=2)
+
+                            ipts = [tuple(Fr(v + j) for j in range(d)) for v in (0, 1, 3)]
+
+                            def int_call():
+                                if first == 'int-single' :
+                                    pt = ipts[1]
+                                    x = int(pt[0]) if (d == 1 and route != 'np.vectorize-lambda') else \
+                                        [int(t) for t in pt] if route != 'np.vectorize-lambda' else \
+                                        np.array([[int(t)] for t in pt])
+                                    check('first call (single integer point)', f(x), [pt])
+                                else:
+                                    x = np.array([[int(t) for t in pt] for pt in ipts]).T.reshape(d, len(ipts))
+                                    check('call on an integer point array', f(x), ipts)
+                            if first in ('int-points', 'int-single'):
+                                int_call()
+                            elif first == 'float-single':
+                                pt = tuple(Fr(1, 2) + j for j in range(d))
+                                x = float(pt[0]) if (d == 1 and route != 'np.vectorize-lambda') else \
+                                    [float(t) for t in pt] if route != 'np.vectorize-lambda' else \
+                                    np.array([[float(t)] for t in pt])
+                                check('first call (single float point)', f(x), [pt])
+                            elif first == 'float32-array':
+                                fpts = [tuple(Fr(v, 4) + j for j in range(d)) for v in (1, 2, 5)]
+                                x = np.array([[float(t) for t in pt] for pt in fpts],
+                                             dtype='float32').T.reshape(d, len(fpts))
+                                check('first call (float32 point array)', f(x), fpts)
+                            # --- sampling on the grid of a space
+                            shape = (4,) if d == 1 else (3, 2)
+                            space = odl.uniform_discr([0] * d, [float(n) / 2 for n in shape], shape, dtype=sdt)
+                            gpts = list(itertools.product(*[[Fr(float(t)) for t in c]
+                                                            for c in space.grid.coord_vectors]))
+                            e = space.element(f)
+                            check('space.element', e.asarray(), gpts)
+                            if str(e.asarray().dtype) != sdt:
+                                limited_violation(ctx, 'vechist/dtype', key + 'element dtype',
+                                                  'dtype {} instead of {}'.format(e.asarray().dtype, sdt), rc)
+                            sf = sampling_function(f, space.domain, out_dtype=sdt)
+                            check('mesh grid', sf(space.meshgrid), gpts)
+                            apts = np.array([[float(t) for t in pt] for pt in gpts]).T.reshape(d, len(gpts))
+                            check('point array', sf(apts), gpts)
+                            out = np.full(space.shape, np.nan, dtype=sdt)
+                            sf(space.meshgrid, out=out)
+                            check('mesh grid with out', out, gpts)
+                            if first == 'after':
+                                int_call()
+                                check('space.element again', space.element(f).asarray(), gpts)
+                        except Exception as ex:  # noqa
+                            limited_violation(ctx, 'vechist/raised/{}/{}'.format(route, first), key + 'raised',
+                                              '{}: {}'.format(type(ex).__name__, str(ex)[:200]), rc, limit=2)
+
+
 def run_single_node_axis(ctx):
     """Axes with a single node: the node is the whole hull, its value must come back there
     (nearest: everywhere along that axis)."""
@@ -2095,6 +2221,7 @@ def run_single_node_axis(ctx):
 
 
 def run_sampling(ctx, with_model=True):
+    run_vectorize_history(ctx)
     run_alias_check(ctx)
     run_bounds_check(ctx)
     run_tuple_1d_plain(ctx)
@@ -2123,7 +2250,7 @@ LAYOUT_BRANCHES = ['layout/{}/{}'.format(e, l) for e in
                    ('interp-values', 'interp-points', 'interp-out', 'resampling-x', 'resampling-out',
                     'deform-x', 'deform-disp', 'deform-out', 'sampling-points', 'sampling-out')
                    for l in ('F', 'strided')]
-EXPECTED_BRANCHES = MODEL_BRANCHES + LAYOUT_BRANCHES + ALIAS_BRANCHES
+EXPECTED_BRANCHES = MODEL_BRANCHES + LAYOUT_BRANCHES + ALIAS_BRANCHES + VEC_BRANCHES
 
 
 def regenerate(ctx):
@@ -2203,6 +2330,8 @@ def replay(ctx, case):
         run_vector_kwargs(ctx)
     elif kind == 'alias':
         run_alias_check(ctx)
+    elif kind == 'vectorize-history':
+        run_vectorize_history(ctx)
     elif kind == 'single-node':
         run_single_node_axis(ctx)
     elif kind == 'dispatch':
